@@ -86,6 +86,11 @@ func bigOf(s string) *big.Int {
 
 // ---------- base chain ----------
 
+type calls = struct {
+	to  common.Address
+	val string
+}
+
 func (w *world) buildBase(libSeed int64) error {
 	// block 1: ONG to the EVM senders (amounts in units of 1e-9 ONG)
 	fund := []uint64{1000000000000, 100000000000, 5000000000, 100000000, 1000000, 0}
@@ -119,7 +124,7 @@ func (w *world) buildBase(libSeed int64) error {
 	}
 	// the addresses of the library contracts are fixed by (sender 0, nonce): compute them first so
 	// that code can refer to other library contracts
-	nFixed := 22
+	nFixed := 32
 	nRandom := 8
 	addrOf := func(n int) common.Address {
 		return common.Address(crypto.CreateAddress(ethcomm.Address(w.addrs[0]), uint64(n)))
@@ -147,6 +152,18 @@ func (w *world) buildBase(libSeed int64) error {
 		{"static_sd_self", codeStatic(addrOf(5))},       // write protection
 		{"create2_child", codeCreate2Child()},
 		{"delegate_forward", codeDelegate(addrOf(7))},   // CALL with CALLVALUE from the caller's context
+		// one transaction, the same victim (SELFDESTRUCT to ANOTHER account) run several times,
+		// receiving value between its self-destructs
+		{"twice_0_v", callSeq([]calls{{addrOf(4), "0"}, {addrOf(4), "cv"}})},
+		{"twice_v_0", callSeq([]calls{{addrOf(4), "cv"}, {addrOf(4), "0"}})},
+		{"twice_v_w", callSeq([]calls{{addrOf(4), "1234"}, {addrOf(4), "cv"}})},
+		{"thrice_0_v_w", callSeq([]calls{{addrOf(4), "0"}, {addrOf(4), "cv"}, {addrOf(4), "77"}})},
+		{"fwd_victim_revert", codeForward(addrOf(4), true)}, // victim self-destructs inside a frame that reverts
+		{"twice_revert_between", callSeq([]calls{{addrOf(4), "0"}, {addrOf(26), "cv"}, {addrOf(4), "bal"}})},
+		{"revert_then_once", callSeq([]calls{{addrOf(26), "cv"}, {addrOf(4), "cv"}})},
+		{"create_then_twice", codeCreateThenCall(initCode(codeSelfdestructTo(w.plain[0])), []string{"0", "cv"})},
+		{"twice_to_contract", callSeq([]calls{{addrOf(13), "0"}, {addrOf(13), "cv"}})},
+		{"create_then_thrice", codeCreateThenCall(initCode(codeSelfdestructTo(w.plain[4])), []string{"9", "cv", "0"})},
 	}
 	if len(fixed) != nFixed {
 		panic("library size")
